@@ -54,6 +54,12 @@ def obligation(oid, kind="vc", tiers=("quick", "thorough"), params=None, timeout
 
 
 # ---------------------------------------------------------------------------
+class Inapplicable(Exception):
+    """the contract's frame no longer matches the representation (e.g. a refactor added
+    state the class invariant does not mention): the obligation is not decided - neither
+    a pass nor an alarm; other (representation-independent) obligations still decide."""
+
+
 class Goal:
     def __init__(self, label, cond):
         self.label = label
@@ -93,6 +99,8 @@ def verify(body, inputs_of=None, replay=None, check_side=True, timeout_ms=30000,
 
     try:
         paths = explore(run, max_paths=max_paths, name=name)
+    except Inapplicable as e:
+        return {"status": "inapplicable", "error": "contract frame mismatch: %s" % e}
     except interp_mod.EngineError as e:
         return {"status": "error", "error": "EngineError: %s" % e, "trace": traceback.format_exc()}
     if not paths and cover:
@@ -171,6 +179,34 @@ def verify(body, inputs_of=None, replay=None, check_side=True, timeout_ms=30000,
     return res
 
 
+def merge(results):
+    """combine the results of several verify() calls into one obligation result"""
+    out = {"status": "proved", "paths": 0, "goals": 0, "proved": 0, "backend": "z3", "functions": {}, "axioms": [],
+           "samples": [], "solver_time_s": 0.0, "failures": [], "unknowns": []}
+    rank = {"proved": 0, "inapplicable": 1, "unknown": 2, "refuted": 3, "error": 4}
+    for r in results:
+        for k in ("paths", "goals", "proved"):
+            out[k] += r.get(k, 0) or 0
+        out["solver_time_s"] += r.get("solver_time_s", 0.0) or 0.0
+        out["functions"].update(r.get("functions") or {})
+        for a in r.get("axioms") or []:
+            if a not in out["axioms"]:
+                out["axioms"].append(a)
+        if len(out["samples"]) < 2:
+            out["samples"].extend((r.get("samples") or [])[:1])
+        out["failures"].extend(r.get("failures") or [])
+        out["unknowns"].extend(r.get("unknowns") or [])
+        if "+cvc5" in (r.get("backend") or ""):
+            out["backend"] = "z3+cvc5"
+        if rank.get(r.get("status"), 4) > rank[out["status"]]:
+            out["status"] = r.get("status")
+            if r.get("error"):
+                out["error"] = r.get("error")
+    out["failures"] = out["failures"][:5]
+    out["solver_time_s"] = round(out["solver_time_s"], 3)
+    return out
+
+
 def _model_of(m, v):
     import numpy as np
     if isinstance(v, (list, tuple)):
@@ -238,6 +274,28 @@ def _cvc5_try(c, cond, timeout_ms):
         except Exception:
             pass
     return None
+
+
+# ---------------------------------------------------------------------------
+def lean_lemma(filename, timeout_s=1500):
+    """Check a pure-mathematics bridge lemma with Lean 4 + Mathlib (`lean <file>`).
+    proved iff lean exits 0 with no error/sorry/axiom-introducing output."""
+    import subprocess
+    here = os.path.dirname(os.path.dirname(os.path.abspath(__file__)))
+    path = os.path.join(here, "lemmas", filename)
+    t0 = time.time()
+    src = open(path).read()
+    if "sorry" in src or "axiom " in src or "admit" in src:
+        return {"status": "error", "error": "lemma file contains sorry/axiom/admit", "backend": "lean4+mathlib"}
+    try:
+        p = subprocess.run(["lean", path], capture_output=True, text=True, timeout=timeout_s, cwd=os.path.dirname(path))
+    except subprocess.TimeoutExpired:
+        return {"status": "unknown", "error": "lean timed out after %ds" % timeout_s, "backend": "lean4+mathlib"}
+    out = (p.stdout + p.stderr).strip()
+    ok = p.returncode == 0 and "error" not in out and "sorry" not in out
+    return {"status": "proved" if ok else "unknown", "backend": "lean4+mathlib", "goals": 1, "proved": 1 if ok else 0,
+            "paths": 0, "wall_s": round(time.time() - t0, 1), "error": None if ok else out[:1500],
+            "samples": [{"lemma_file": "lemmas/" + filename, "lean_output": out[:300], "statement_head": src[:500]}]}
 
 
 # ---------------------------------------------------------------------------
